@@ -234,10 +234,19 @@ class Parser:
     def _parse(self) -> AST:
         root = AST(source=self.source)
 
+        while (token := self.next_token) is not None:
+            if token.type != TokenType.COMMENT:
+                break
+            self._parse_comment(root)
+
         token = self._assert_and_cunsume(TokenType.BRACKET_LEFT)
         root.tokens.append(token)
 
         while (token := self.next_token) is not None:
+            if token.type == TokenType.COMMENT:
+                self._parse_comment(root)
+                continue
+
             if token.type == TokenType.BRACKET_RIGHT:
                 break
 
@@ -269,6 +278,11 @@ class Parser:
 
         t2 = self._assert_and_cunsume(TokenType.BRACKET_RIGHT)
         node.tokens.append(t2)
+
+        while (token := self.next_token) is not None:
+            if token.type != TokenType.COMMENT:
+                break
+            self._parse_comment(node)
 
         t3 = self._assert_and_cunsume(TokenType.BRACKET_LEFT)
         node.tokens.append(t3)
